@@ -83,6 +83,7 @@ def FlipPolarity(F):
     newF = CNF()
     newF.header = copy(F.header)
     add_description(newF,"All polarities have been flipped")
+    newF.update_variable_number(F.number_of_variables())
 
     def subst(lit):
         return [[-lit]]
